@@ -845,6 +845,9 @@ func (x *Exec) loopHeader(st *State, fr *Frame, h *ssa.BasicBlock, ord int, phis
 		x.registerCoverAny(x.oblName(kindPrefix+"/iteration-reachable", 0, ""), "some complete iteration of the loop is reachable (the per-iteration clauses are not vacuous)")
 	}
 	if spec != nil {
+		for i, en := range spec.Entry {
+			x.assert(st, x.oblName(kindPrefix+"/entry", i+1, en.Label), "loop-entry", en.Text, en.Src, x.evalBool(sc, en.Expr), true)
+		}
 		for i, inv := range spec.Invariants {
 			x.assert(st, x.oblName(kindPrefix+"/init", i+1, inv.Label), "invariant-init", inv.Text, inv.Src, x.evalBool(sc, inv.Expr), true)
 		}
